@@ -18,6 +18,24 @@ check("C21", "model_checking",
       "TLA+ reference spec + TLC state-graph enumeration, spec->impl replay with full query comparison; layer-B refinement check",
       "DESIGN.md section 6 C21")
 
+check("C31", "model_checking",
+      "PathNorm.tla builds every path of <= 6 (quick) / 8 (thorough) components over {., .., a, b}, absolute and relative (174 762 paths), with its reference canonical form; TLC separately checks that the canonical form characterises 'resolves to the same file from every working directory' and that the transcription of cheap_canonicalize_path agrees with it. Every path is normalised by the real NormalizedPathBuf::new; idempotence and 'identified only if same file' are judged on the whole space.",
+      "Trusted: TLC; the lexical (symlink-free) reading of paths; only the direction 'identified => same file' is judged.",
+      "TLA+ spec enumerated exhaustively by TLC, spec->impl replay of every state",
+      "DESIGN.md section 6 C31")
+
+check("C32", "model_checking",
+      "Refinement.tla derives every integer-predicate tree (atoms ==,!=,<,<=,>,>= with constants; not/and/or) to depth 2 and gives its denotation on a window that TLC shows to be exact; each tree is rebuilt through the real Predicate constructors (eq/ne/ge/gt/le/lt/and/or/invert) and the resulting data structure, evaluated point by point, must denote the same set. Deeper trees are sampled with TLC -simulate.",
+      "Trusted: TLC; the 30-line structural evaluator of Predicate values in harness/vh/src/pred.rs; window exactness (TLC-checked invariant WindowExact).",
+      "TLA+ derivation machine enumerated by TLC, spec->impl replay comparing denotations",
+      "DESIGN.md section 6 C03/C32")
+
+check("C03", "model_checking",
+      "All ordered pairs (P, Q) of the predicate trees of depth <= 1 derived by Refinement.tla (468 k pairs quick, 3.4 M thorough) and all pairs of sampled deeper trees are put to the real Context::subtype_of as {I: Int | P} <: {I: Int | Q}; acceptance while Den(P) is not a subset of Den(Q) is a violation with a witness integer. A sample of pairs is also checked end to end through `erg check` of `g(x: {I: Int | P}): {I: Int | Q} = x`.",
+      "Trusted: TLC; the window-exactness lemma; only soundness (not completeness) of the subtype test is judged.",
+      "TLA+ denotational spec enumerated by TLC, spec->impl replay on Context::subtype_of and erg check",
+      "DESIGN.md section 6 C03/C32")
+
 NOT_APPLICABLE = {
     "C16": "static comparison of opcode/magic tables with external ground truth: no state or behaviour for a TLA+ specification to constrain (DESIGN.md section 7)",
     "C27": "data audit of ~150 declaration files against installed interpreters/typeshed: no behaviour to model in TLA+ (DESIGN.md section 7)",
